@@ -1,4 +1,7 @@
 import AmrK.SchedN
+import AmrK.PathsMore
+import AmrK.WritePerm
+import AmrK.Obligations.PoolCalls
 /-! # C12 — results do not depend on worker count, task order or serial/parallel mode
 
 File system as `Path → Option Bytes`, a task as its list of create/append steps; a pool run is any
@@ -22,6 +25,25 @@ theorem two_tasks {a b tr : List Step} (m : Merge a b tr)
 theorem interleavings_agree (ts : List (List Step)) (tr tr' : List Step) (m : MergeAll ts tr) (m' : MergeAll ts tr')
     (hd : Disjoint ts) (fs : FS) : run fs tr = run fs tr' := by
   rw [mergeAll_run m hd fs, mergeAll_run m' hd fs]
+
+/-- **the per-file tasks of colander, combine, chef and chk2plt write pairwise distinct files**:
+    `join(out, level_dir, basename(file))` is injective in the basename (the disjointness hypothesis
+    above, for the output side; the audit of every pool call checks it on the real code) -/
+theorem task_outputs_distinct (abs : Bool) (cs : List Py.Bytes) (b1 b2 : Py.Bytes)
+    (h1 : Paths.GoodComps (cs ++ [b1])) (h2 : Paths.GoodComps (cs ++ [b2]))
+    (he : Paths.render abs (cs ++ [b1]) = Paths.render abs (cs ++ [b2])) : b1 = b2 :=
+  Paths.out_path_injective abs cs b1 b2 h1 h2 he
+
+/-- in-memory results (whip's array): any arrival order of pairwise-disjoint region writes -/
+theorem unordered_results {l l' : List ((Nat → Bool) × Nat)} (p : l.Perm l') (h : Probe.PairwiseDisjoint l)
+    (a : Nat → Option Nat) : l.foldl Probe.write a = l'.foldl Probe.write a :=
+  Probe.foldl_write_perm p h a
+
+/-- **results are delivered in completion order only in whip** (regenerated from the sources on every
+    run): every other pool call zips the results with the submission list, so its outputs do not
+    depend on the completion order at all -/
+theorem unordered_delivery_only_in_whip :
+    Generated.unorderedPoolCalls = [("amr_kitchen/whip/cli.py", "main")] := Generated.unordered_only_in_whip
 
 /-- non-vacuity: two tasks writing two files, interleaved step by step -/
 example : MergeAll [[.create "a", .append "a" [1]], [.create "b", .append "b" [2]]]
